@@ -20,4 +20,18 @@ LEAVES = [
      [P("this_question_type is QM_QUESTION", "is_qm", "bool"), P("delay", "delay")], "bool", {}),
     ("LookupLoop", "last_time", _I, "ServiceInfo.async_request", ("assign", "last", 0),
      [P("now", "now"), P("timeout", "timeout")], "num", {}),
+    # the time handed to DNSOutgoing.add_answer_at_time for a known answer (0 would put the full TTL on the wire)
+    ("QueryTtl", "lookup_answer_time", _I, "ServiceInfo._add_question_with_known_answers", ("arg", "add_answer_at_time", 1, 0),
+     [P("now", "now")], "num", {}),
+    ("QueryTtl", "bucket_answer_time", "_services/browser.py", "_DNSPointerOutgoingBucket.add", ("arg", "add_answer_at_time", 1, 0),
+     [P("self.now_millis", "now_millis")], "num", {}),
+    ("QueryTtl", "bucket_now_field", "_services/browser.py", "_DNSPointerOutgoingBucket.__init__", ("assign", "self.now_millis", 0),
+     [P("now_millis", "now_millis")], "num", {}),
+    ("QueryTtl", "bucket_ctor_time", "_services/browser.py", "_group_ptr_queries_with_known_answers", ("arg", "_DNSPointerOutgoingBucket", 0, 0),
+     [P("now_millis", "now_millis")], "num", {}),
+    ("QueryTtl", "group_call_time", "_services/browser.py", "generate_service_query", ("arg", "_group_ptr_queries_with_known_answers", 0, 0),
+     [P("now_millis", "now_millis")], "num", {}),
+    # the 10 s clean-up tick expires the question history at the current time (it must not clear it)
+    ("History", "cleanup_expire_time", "_engine.py", "AsyncEngine._async_cache_cleanup", ("arg", "question_history.async_expire", 0, 0),
+     [P("now", "now")], "num", {}),
 ]
